@@ -515,7 +515,9 @@ Fixpoint inst_lines (ls : list string) (st : ist) (acc : list (pkg * list hdr)) 
         do st' <- inst_field (fst tv) (snd tv) st;
         inst_lines ls' st' acc
   end.
-Definition installed_max_token : N := default_max_token.
+(* the token limit of ParseInstalled's scanner: what it hands to Scanner.Buffer, or
+   bufio.MaxScanTokenSize when it never calls Buffer (goextract reads which) *)
+Definition installed_max_token : N := installed_max_token_src.
 Definition parse_installed_max (max : N) (s : string) : res (list (pkg * list hdr)) :=
   let '(lines, toolong) := scan_lines max s in
   do r <- inst_lines lines empty_ist [];
